@@ -511,6 +511,47 @@ theorem gshape_addWp (n d : Nat) (g : GradsND K) (gq : List (Vec K)) (hn : 1 ≤
   · exact hg.ea
   · exact hg.ej
 
+theorem zipWith_ad_rows (rho : K) (d : Nat) (A B : List (Vec K)) (hA : ∀ a ∈ A, a.length = d) (hB : ∀ b ∈ B, b.length = d) :
+    ∀ r ∈ List.zipWith (fun a b => vadd a (vscale rho b)) A B, r.length = d := by
+  induction A generalizing B with
+  | nil => simp
+  | cons a A ih =>
+    cases B with
+    | nil => simp
+    | cons b B =>
+      intro r hr
+      simp only [List.zipWith_cons_cons, List.mem_cons] at hr
+      rcases hr with rfl | hr
+      · rw [vadd_length _ _ (by simp [vscale, hA a (by simp), hB b (by simp)]), hA a (by simp)]
+      · exact ih B (fun x hx => hA x (by simp [hx])) (fun x hx => hB x (by simp [hx])) r hr
+
+theorem ad_length (rho : K) (d : Nat) (a b : Vec K) (ha : a.length = d) (hb : b.length = d) :
+    (vadd a (vscale rho b)).length = d := by
+  rw [vadd_length _ _ (by simp [vscale, ha, hb]), ha]
+
+theorem gshape_addEnergy (rho : K) (o : Order) (n d : Nat) (g1 eg : GradsND K) (h1 : GShape n d g1) (h2 : GShape n d eg) :
+    GShape n d (addEnergy rho o g1 eg) := by
+  have hp := pts_addEnergy rho o g1 eg (by rw [h1.inner, h2.inner])
+  constructor
+  · simp only [addEnergy, List.length_zipWith, h1.inner, h2.inner]; omega
+  · rw [hp]; exact zipWith_ad_rows rho d _ _ h1.rows h2.rows
+  · simp only [addEnergy]
+    rw [zipAdd_length _ _ (by simp [scale, h1.times, h2.times]), h1.times]
+  · exact ad_length rho d _ _ h1.sv h2.sv
+  · simp only [addEnergy]; split
+    · exact ad_length rho d _ _ h1.sa h2.sa
+    · exact h1.sa
+  · simp only [addEnergy]; split
+    · exact ad_length rho d _ _ h1.sj h2.sj
+    · exact h1.sj
+  · exact ad_length rho d _ _ h1.ev h2.ev
+  · simp only [addEnergy]; split
+    · exact ad_length rho d _ _ h1.ea h2.ea
+    · exact h1.ea
+  · simp only [addEnergy]; split
+    · exact ad_length rho d _ _ h1.ej h2.ej
+    · exact h1.ej
+
 theorem dot_const_zero (d : Nat) (x : Vec K) (f : Nat → K) (hf : ∀ j, f j = 0) : dot ((List.range d).map f) x = 0 := by
   rw [dot_map_range]
   apply Finset.sum_eq_zero
@@ -545,7 +586,8 @@ theorem evalCore_dual (cD : Config (Dual K)) (cR : Config K) (dc : Decoded (Dual
     (hT : dc.times.length = cD.n) (hn1 : cD.n ≠ 0) (hW : dc.waypoints.length = cD.n + 1)
     (hpos : ∀ h ∈ dc.times, 0 < h.re) (hc : CostsOK cD.n cD.dim costsD costsR dc) :
     (evalCore cD dc costsD).cost.du
-      = ndPair (evalCore cR (dcRe dc) costsR).g (dc.waypoints.map vdu) (dc.times.map Dual.du) (bcDu dc.bc) := by
+      = ndPair (evalCore cR (dcRe dc) costsR).g (dc.waypoints.map vdu) (dc.times.map Dual.du) (bcDu dc.bc)
+    ∧ GShape cD.n cD.dim (evalCore cR (dcRe dc) costsR).g := by
   have hne : dc.times ≠ [] := by
     intro h; rw [h] at hT; exact hn1 hT.symm
   have hP : dc.waypoints.length = dc.times.length + 1 := by rw [hW, hT]
@@ -593,6 +635,7 @@ theorem evalCore_dual (cD : Config (Dual K)) (cR : Config K) (dc : Decoded (Dual
     obtain ⟨ga, gj⟩ := energyGrad_gate cD.order cD.dim (dc.times.map Dual.re) (dc.waypoints.map vre) cR.startTime
       (bcRe dc.bc) (bcDu dc.bc)
     simp only [dcRe, ho, hd]
+    refine ⟨?_, gshape_addEnergy cR.rho cD.order cD.n cD.dim cgR _ e4 hshE⟩
     rw [ndPair_addEnergy cR.rho cD.order cD.n cD.dim cgR _ _ _ _ e4 hshE (by simp [hT]) ga gj, ← hE, ← e3]
     have : ((wpStage cD dc costsD).1 + cD.rho * (buildND cD.order cD.dim dc.times dc.waypoints cD.startTime dc.bc).energy).du
         = (wpStage cD dc costsD).1.du + (cD.rho.re * (buildND cD.order cD.dim dc.times dc.waypoints cD.startTime dc.bc).energy.du
@@ -603,7 +646,7 @@ theorem evalCore_dual (cD : Config (Dual K)) (cR : Config K) (dc : Decoded (Dual
   · rename_i h
     have hR : ¬ (NumOrd.lt (lit 0) cR.rho = true) := by rw [← hrho]; exact h
     rw [if_neg hR]
-    exact e3
+    exact ⟨e3, e4⟩
 
 end main
 
